@@ -70,6 +70,9 @@ pub enum Path {
     Modifier,
     /// FunctionModifier::inject_at
     ModifierInjectAt,
+    /// FunctionModifier: func_entry() + an entry marker, NO finish_instr(), then inject_at(idx, mode, op) on the same modifier:
+    /// inject_at names its instruction and mode explicitly, so the op belongs there whatever function-level mode is active
+    ModifierInjectAtAfterFuncEntry,
 }
 
 #[derive(Clone, Debug)]
@@ -116,6 +119,10 @@ pub fn probe_ops(uid: u32, n: usize) -> Vec<O<'static>> {
         v.push(O::Drop);
     }
     v
+}
+/// the function-entry marker that accompanies an injection made through `Path::ModifierInjectAtAfterFuncEntry`
+pub fn entry_marker_ops(uid: u32) -> Vec<O<'static>> {
+    vec![O::I32Const { value: (MARK_BASE + uid * 8 + 7) as i32 }, O::Drop]
 }
 pub fn marker_present(ops: &[SymOp], uid: u32) -> usize {
     let want = sym::sym_op(&O::I32Const { value: (MARK_BASE + uid * 8) as i32 }).unwrap().bytes;
@@ -347,6 +354,18 @@ fn apply_one_module<'a>(m: &mut wirm::Module<'a>, inj: &Inj, ops: Vec<O<'static>
                     it.inject_at(inj.at, inj.mode.im().expect("inject_at mode"), o);
                 }
             }
+        }
+        Path::ModifierInjectAtAfterFuncEntry => {
+            let mut fm = m.functions.get_fn_modifier(FunctionID(inj.func)).expect("modifier");
+            fm.func_entry();
+            for o in entry_marker_ops(inj.uid) {
+                fm.inject(o);
+            }
+            for o in ops {
+                fm.inject_at(inj.at, inj.mode.im().expect("inject_at mode"), o);
+            }
+            // the function-level mode is closed afterwards (it would otherwise stay active for later calls on this function)
+            fm.finish_instr();
         }
         Path::Modifier | Path::ModifierInjectAt => {
             let mut fm = m.functions.get_fn_modifier(FunctionID(inj.func)).expect("modifier");
@@ -782,6 +801,9 @@ pub fn gen_plan(id: &str, rng: &mut Rng) -> Result<(gen::GenModule, Vec<Inj>, bo
                 if mode == Mode::EmptyAlt && matches!(path, Path::IterInjectAt | Path::ModifierInjectAt) {
                     path = Path::Iter;
                 }
+                if mode != Mode::EmptyAlt && rng.chance(1, 10) {
+                    path = Path::ModifierInjectAtAfterFuncEntry;
+                }
                 plan.push(Inj { func, at, mode, path, uid, n_ops: rng.range(1, 2), leading_drop: false, probe: Probe::Marker });
                 uid += 1;
                 // 1 in 8: what was injected at a site in one mode is withdrawn again (and possibly injected anew by a later step)
@@ -1018,6 +1040,7 @@ fn path_of(s: &str) -> Option<Path> {
         "IterInjectAt" => Path::IterInjectAt,
         "Modifier" => Path::Modifier,
         "ModifierInjectAt" => Path::ModifierInjectAt,
+        "ModifierInjectAtAfterFuncEntry" => Path::ModifierInjectAtAfterFuncEntry,
         _ => return None,
     })
 }
@@ -1159,7 +1182,31 @@ impl Lower {
                 for (f, func) in raw_in.funcs.iter().enumerate() {
                     let fplan: Vec<&Inj> = accepted.iter().filter(|i| i.func == nimp + f as u32).cloned().collect();
                     let exp = expected_body(&func.ops, &fplan);
-                    let got = &raw_out.funcs[f].ops;
+                    // function-entry markers of the sticky-entry path are not part of the instruction-level spec: they must exist
+                    // (C22's subject), and are removed before the body is compared
+                    let entry_consts: Vec<Vec<u8>> = fplan
+                        .iter()
+                        .filter(|i| i.path == Path::ModifierInjectAtAfterFuncEntry)
+                        .map(|i| sym::sym_op(&entry_marker_ops(i.uid)[0]).unwrap().bytes)
+                        .collect();
+                    let stripped: Vec<SymOp>;
+                    let got: &Vec<SymOp> = if entry_consts.is_empty() {
+                        &raw_out.funcs[f].ops
+                    } else {
+                        let src = &raw_out.funcs[f].ops;
+                        let mut v = vec![];
+                        let mut k = 0;
+                        while k < src.len() {
+                            if entry_consts.contains(&src[k].bytes) && k + 1 < src.len() && src[k + 1].name == "Drop" {
+                                k += 2;
+                                continue;
+                            }
+                            v.push(src[k].clone());
+                            k += 1;
+                        }
+                        stripped = v;
+                        &stripped
+                    };
                     // sites with >= 2 modes
                     let mut per: BTreeMap<usize, Vec<Mode>> = BTreeMap::new();
                     for i in &fplan {
